@@ -242,6 +242,13 @@ def close (F : Fmt) (w : W) (tocTar : List TocEnt → Bytes) (a : Nat) : Blob :=
   let w' := closeGz w
   writeTocAndFooter F w'.closed w'.cwN w'.toc (tocTar w'.toc) a w'.hashed
 
+/-- `NewWriterWithCompressor`, some `AppendTar`/`AppendTarLossLess` calls, `Close`. -/
+def writerRun (P : Params) (F : Fmt) (calls : List (List TarEnt × Bytes))
+    (tocTar : List TocEnt → Bytes) (orcF orcC : List Nat) (a : Nat) : Option Blob :=
+  match appendTars P { orcF := orcF, orcC := orcC } calls with
+  | none => none
+  | some w => some (close F w tocTar a)
+
 /-! ## Build: divide, per-part writers, combine -/
 
 /-- The loop of `divideEntries` (sizes are `header.Size`). -/
